@@ -122,7 +122,8 @@ static std::string g_context;
 static long g_commands = 0, g_msgs = 0, g_checks = 0;
 static void OnAlarm(int)
 {
-   char b[600]; int n = snprintf(b, sizeof(b), "{\"case\":\"watchdog\",\"prop\":\"C04\",\"violations\":[\"the server did not come back within the watchdog time (hang): %s\"]}\n{\"summary\":true,\"hang\":true}\n", g_context.substr(0, 300).c_str());
+   char ctx[320]; size_t k = 0; for (; (k<sizeof(ctx)-1)&&(k<g_context.size()); k++) { const char ch = g_context[k]; ctx[k] = ((ch == '"')||(ch == '\\')||((unsigned char) ch < 0x20)) ? '\'' : ch; } ctx[k] = '\0';
+   char b[600]; int n = snprintf(b, sizeof(b), "{\"case\":\"watchdog\",\"violations\":[\"the server did not come back within the watchdog time (hang): %s\"]}\n{\"summary\":true,\"hang\":true}\n", ctx);
    if (g_report) { fflush(g_report); if (write(fileno(g_report), b, n) < 0) {} }
    _exit(0);
 }
@@ -566,6 +567,9 @@ static int Replay(const char * behFile, const char * repFile)
                const J & e = st["exp"].o[k].second; for (size_t x=0; x<e.a.size(); x++) { std::string key = PairKey(e.a[x].a[0]); if (!unc.count(key)) want[key] = (long) e.a[x].a[1].i(); }
                for (std::map<std::string,uint32>::iterator m = c->mirror.begin(); m != c->mirror.end(); ++m) if (!c->Owns(m->first)) { std::string key = w.SpecPathStr(m->first); if (!unc.count(key)) got[key] = m->second; }
                expcmp++;
+               // the number of update Messages (algorithm level; several operations in one handler may interleave sets and removals in another order)
+               if ((st["cmd"]["op"].s != "multi")&&(st["nmsg"].has(c->name.c_str()))&&((size_t) st["nmsg"][c->name.c_str()].i() != c->upds.size()))
+                  dr.push_back("step " + std::to_string((long long) si) + ": " + c->name + " received " + std::to_string((long long) c->upds.size()) + " update Messages, the specification expects " + std::to_string((long long) st["nmsg"][c->name.c_str()].i()));
                if (want != got)
                {
                   std::string a, x; char bb[100];
